@@ -200,3 +200,27 @@ package frontend
 //@   requires s != nil && s.ctx != nil && errorsNonNil(s.ctx) && c != nil
 //@   nosafety
 //@   ensures len(s.ctx.Errors) == old(len(s.ctx.Errors)) + 1 && errorsNonNil(s.ctx)
+//@ func (s *BaseVisitor) EnterOC_InQueryCall(c *parser.OC_InQueryCallContext)
+//@   requires s != nil && s.ctx != nil && errorsNonNil(s.ctx) && c != nil
+//@   nosafety
+//@   ensures len(s.ctx.Errors) == old(len(s.ctx.Errors)) + 1 && errorsNonNil(s.ctx)
+//@ func (s *BaseVisitor) EnterOC_StandaloneCall(c *parser.OC_StandaloneCallContext)
+//@   requires s != nil && s.ctx != nil && errorsNonNil(s.ctx) && c != nil
+//@   nosafety
+//@   ensures len(s.ctx.Errors) == old(len(s.ctx.Errors)) + 1 && errorsNonNil(s.ctx)
+//@ func (s *BaseVisitor) EnterOC_ListOperatorExpression(c *parser.OC_ListOperatorExpressionContext)
+//@   requires s != nil && s.ctx != nil && errorsNonNil(s.ctx) && c != nil
+//@   nosafety
+//@   ensures len(s.ctx.Errors) == old(len(s.ctx.Errors)) + 1 && errorsNonNil(s.ctx)
+//@ func (s *BaseVisitor) EnterOC_ListComprehension(c *parser.OC_ListComprehensionContext)
+//@   requires s != nil && s.ctx != nil && errorsNonNil(s.ctx) && c != nil
+//@   nosafety
+//@   ensures len(s.ctx.Errors) == old(len(s.ctx.Errors)) + 1 && errorsNonNil(s.ctx)
+//@ func (s *BaseVisitor) EnterOC_PatternComprehension(c *parser.OC_PatternComprehensionContext)
+//@   requires s != nil && s.ctx != nil && errorsNonNil(s.ctx) && c != nil
+//@   nosafety
+//@   ensures len(s.ctx.Errors) == old(len(s.ctx.Errors)) + 1 && errorsNonNil(s.ctx)
+//@ func (s *BaseVisitor) EnterOC_CreateUnique(c *parser.OC_CreateUniqueContext)
+//@   requires s != nil && s.ctx != nil && errorsNonNil(s.ctx) && c != nil
+//@   nosafety
+//@   ensures len(s.ctx.Errors) == old(len(s.ctx.Errors)) + 1 && errorsNonNil(s.ctx)
